@@ -318,3 +318,11 @@ package agent
 //@   ensures none:  r == nil ==> forall(k, 0, len(a.Downloads), a.Downloads[k].FileID != FileID)
 //@   loop "for _, download := range a.Downloads"
 //@     invariant none: forall(k, 0, idx__, a.Downloads[k].FileID != FileID)
+
+// C02 (request id): the request id of a prepared task is the operator's TaskID
+// (eight hex digits) whenever one is given, and a random one otherwise; it is
+// written nowhere else.
+//@ func (a *Agent) TaskPrepare(Command int, Info any, Message *map[string]string, ClientID string, teamserver TeamServer) (j *Job, err error)
+//@   modifies *
+//@   guard-call taskid: "ParseInt#1" arg(0) == job.TaskID && arg(1) == 16 && arg(2) == 64 && job.TaskID == unboxed(Optional["TaskID"], string)
+//@   guard-store rid: "+Job\.RequestID$" storedvalue() == lastresult(Uint32) || (inscope("RequestID") && storedvalue() == uint32(RequestID) && (id32(job.TaskID) ==> RequestID == uf_hexval(job.TaskID)))
